@@ -51,7 +51,7 @@ class C16(Scenario):
                    "positions whose constructor copies its argument (Bin flows and values, Fraction value, sparse value "
                    "templates) do not share an object afterwards and are control cases"]
     expected_faults = ["shared_node"]
-    expected_probes = ["shared_prefilled", "shared_used_in_other_tree", "shared_numpy_attempt", "control_shared_template", "parent_prefilled", "explicit_bins_position", "assigned_slot", "reloaded_root", "fill_inside_another_fill"]
+    expected_probes = ["shared_prefilled", "shared_used_in_other_tree", "shared_numpy_attempt", "control_shared_template", "parent_prefilled", "explicit_bins_position", "assigned_slot", "reloaded_root", "fill_inside_another_fill", "fill_through_dataframe_method"]
 
     # ------------------------------------------------------------------ generation
     def generate(self, rng, tier, profile):
@@ -191,8 +191,8 @@ class C16(Scenario):
             elif s.chance(0.65):
                 steps.append({"op": "fill", "rec": s.randrange(len(recs)), "w": s.pick(specmod.POS_WEIGHTS)})
             else:
-                steps.append({"op": "fillnumpy", "rows": [s.randrange(len(recs)) for _ in range(s.randint(1, 4))], "box": s.pick(["dict", "frame", "rec"]),
-                              "weights": s.pick(["one", 0.5])})
+                steps.append({"op": "fillnumpy", "rows": [s.randrange(len(recs)) for _ in range(s.randint(1, 4))], "box": s.pick(["dict", "frame", "rec", "frame"]),
+                              "weights": s.pick(["one", 0.5, "one"]), "via_frame": s.chance(0.6)})
         return {"defs": defs, "tree": tree, "shared": shared, "pattern": pat, "records": [specmod.enc_record(r) for r in recs], "steps": steps,
                 "assign": assign if pat == "assigned-slot" else [], "reloaded": reloaded if pat == "reloaded-root" else None}
 
@@ -290,7 +290,12 @@ class C16(Scenario):
                             not any(sp["p"] in specmod.HAS_Q for _, sp in specmod.walk(case["tree"])):
                         continue
                     b = make_box(w.records, st["rows"], st["box"])
-                    o = call(tree.fill.numpy, b) if st["weights"] == "one" else call(tree.fill.numpy, b, float(st["weights"]))
+                    if st["box"] == "frame" and st["weights"] == "one" and st.get("via_frame"):
+                        # the DataFrame's own entry point (df.histogrammar(tree), what df.hg_Bin(...) etc. go through)
+                        o = call(b.histogrammar, tree)
+                        w.bump("probe_fill_through_dataframe_method")
+                    else:
+                        o = call(tree.fill.numpy, b) if st["weights"] == "one" else call(tree.fill.numpy, b, float(st["weights"]))
                     if shared:
                         w.bump("probe_shared_numpy_attempt")
                 attempts += 1
